@@ -63,6 +63,15 @@ def run_grid(case, seed, R):
             R.expect_close(y, yr, 4 * eps * np.abs(yr), sig, 'y vector')
             R.expect(np.asarray(x).shape == (n1,) and x[n1 // 2] == 0 and y[n0 // 2] == 0, sig, 'exact zero at n//2')
             R.expect(np.asarray(x).dtype == dt, sig + ':dtype', f'dtype {np.asarray(x).dtype} != configured {dt}')
+            # the two vectors are independent arrays: a caller offsetting one in place (half-pitch shifts of lenslet /
+            # actuator lattices do exactly that) must not move the other
+            if not R.expect(not np.shares_memory(x, y), sig + ':vectors-alias', 'x and y vectors returned by make_xy_grid(grid=False) share memory'):
+                pass
+            try:
+                x += 3.5 * dx
+            except Exception:   # noqa
+                pass
+            R.expect_close(y, yr, 4 * eps * np.abs(yr), sig + ':vectors-alias', 'y vector changed when the caller shifted the x vector in place')
         out = R.call(coordinates.make_xy_grid, (n0, n1), dx=dx, grid=True)
         X, Y = np.meshgrid(xr, yr)
         if out is not FAILED:
@@ -71,6 +80,7 @@ def run_grid(case, seed, R):
             R.expect_close(y, Y, 4 * eps * np.abs(Y), sig, 'y grid')
             if np.asarray(x).shape == (n0, n1):
                 R.expect(np.all(x[:, n1 // 2] == 0) and np.all(y[n0 // 2, :] == 0), sig, 'exact zero line at n//2')
+                R.expect(not np.shares_memory(x, y), sig + ':grids-alias', 'x and y grids returned by make_xy_grid share memory')
         if n0 == n1:
             out = R.call(coordinates.make_xy_grid, n0, dx=dx, grid=True)
             if out is not FAILED:
@@ -234,6 +244,28 @@ def run_slices(case, seed, R):
         R.expect_equal(vx, a[n0 // 2, n1 // 2:], sig + ':x1', 'one-sided x slice')
         R.expect_equal(vy, a[n0 // 2:, n1 // 2], sig + ':y1', 'one-sided y slice')
         R.expect(len(cx) > 0 and cx[0] == 0 and len(cy) > 0 and cy[0] == 0, sig + ':onesided-origin', 'one-sided slice does not start at 0')
+    # coordinates whose zero is not at n//2 (an off-centre crop carries its coordinates along; x/y assigned through the
+    # setters; Slices built directly): the slices still pass through the sample whose coordinate is zero
+    from prysm._richdata import Slices
+    for i0 in sorted({0, n0 // 2 - 1, n0 // 2 + 1, n0 - 1} & set(range(n0))):
+        for j0 in sorted({0, n1 // 2 - 1, n1 // 2 + 1, n1 - 1} & set(range(n1))):
+            xv, yv = (np.arange(n1) - j0) * dx, (np.arange(n0) - i0) * dx
+            X, Y = np.meshgrid(xv, yv)
+            rd = RichData(a.copy(), dx, 0.5)
+            rd.x, rd.y = X, Y
+            for how, mk in (('setters', lambda ts: rd.slices(ts)), ('direct', lambda ts: Slices(a, xv, yv, twosided=ts))):
+                s = R.call(mk, True)
+                if s is FAILED:
+                    continue
+                R.expect_equal(s.x[1], a[i0, :], sig + ':shifted-origin:x', f'{how}: x slice is not the row of the zero y coordinate (row {i0} of {n0})')
+                R.expect_equal(s.y[1], a[:, j0], sig + ':shifted-origin:y', f'{how}: y slice is not the column of the zero x coordinate (column {j0} of {n1})')
+                s = R.call(mk, False)
+                if s is FAILED:
+                    continue
+                R.expect_equal(s.x[1], a[i0, j0:], sig + ':shifted-origin:x1', f'{how}: one-sided x slice, origin at {(i0, j0)}')
+                R.expect_equal(s.y[1], a[i0:, j0], sig + ':shifted-origin:y1', f'{how}: one-sided y slice, origin at {(i0, j0)}')
+                R.expect(len(s.x[0]) > 0 and s.x[0][0] == 0 and len(s.y[0]) > 0 and s.y[0][0] == 0, sig + ':shifted-origin:onesided-origin',
+                         f'{how}: one-sided slice does not start at coordinate 0 (origin at {(i0, j0)})')
     R.nontrivial(n0 * n1 > 1)
     R.outcome('slices')
 
